@@ -1,8 +1,8 @@
 (* C16, headline statements in terms of the inputs of new_cert / self_sign / sign_req / derive_cert. *)
 From NDN Require Import Base.Prelude Base.Text Model.TlvVar Model.Name Model.Tlv Model.Packet Model.PacketEnc Model.Cert
-  Spec.TlvWf Spec.SignedPortion Spec.CertSpec Generated.Schemas Generated.ConstsCert
+  Spec.TlvWf Spec.StrictTlv Spec.SignedPortion Spec.CertSpec Generated.Schemas Generated.ConstsCert
   Proofs.BytesLemmas Proofs.TlvVarProofs Proofs.NameWire Proofs.NameUri Proofs.TlvSplit Proofs.TlvRoundtrip
-  Proofs.TlvRoundtrip2 Proofs.TlvMore Proofs.CertProofs Proofs.CertTime.
+  Proofs.TlvRoundtrip2 Proofs.TlvMore Proofs.CertProofs Proofs.CertStrict Proofs.CertTime.
 Local Open Scope N_scope.
 Set Default Timeout 120.
 
@@ -60,7 +60,8 @@ Theorem new_cert_fields a m kn :
     bdt_to_secs t0 = instant_of (c_start a) /\ bdt_to_secs t1 = instant_of (c_end a) /\
     valid_bdt t0 = true /\ valid_bdt t1 = true /\
     (match c_signer a with Some _ => sv = Some (sign (m_sig_covered m)) | None => sv = None end) /\
-    (1000 <= t_year t0 -> 1000 <= t_year t1 -> dec_cert (m_wire m) = Ok (issued_values a kn n t0 t1 sv)).
+    (1000 <= t_year t0 -> 1000 <= t_year t1 ->
+     dec_cert (m_wire m) = Ok (issued_values a kn n t0 t1 sv) /\ strict_cert (m_wire m) = Ok (issued_values a kn n t0 t1 sv)).
 Proof.
   intros H L Hl. destruct (new_cert_parts sign a m H) as (p & Hp).
   destruct (parts_instants a m p kn Hp L) as (n & Hn & Hlt & Hname & I0 & V0 & I1 & V1 & T0 & T1).
@@ -69,9 +70,12 @@ Proof.
   split; [exact Hn|]. split; [rewrite Hfn; exact Hname|]. split; [exact E0|]. split; [exact E1|].
   split; [exact I0|]. split; [exact I1|]. split; [exact V0|]. split; [exact V1|]. split; [exact Hsv|].
   intros Y0 Y1. unfold issued_values. rewrite <- Hname, <- (T0 Y0), <- (T1 Y1).
-  apply (new_cert_roundtrip sign a m p Hp Hl); [|exact (l_info a kn L)].
-  rewrite Hname. apply Forall_app. split; [exact (l_comps a kn L)|].
-  constructor; [exact (l_issuer a kn L)|]. constructor; [apply version_wf|constructor].
+  assert (Hn' : Forall wf_comp64 (p_name p)).
+  { rewrite Hname. apply Forall_app. split; [exact (l_comps a kn L)|].
+    constructor; [exact (l_issuer a kn L)|]. constructor; [apply version_wf|constructor]. }
+  split.
+  - exact (new_cert_roundtrip sign a m p Hp Hl Hn' (l_info a kn L)).
+  - exact (new_cert_strict sign a m p Hp Hl Hn' (l_info a kn L)).
 Qed.
 
 (* C16_wellformed: one Data element -- shortest-form Type and Length, Length exact -- whose value is a sequence of
@@ -192,6 +196,13 @@ Proof.
   repeat split; try reflexivity; [|exact Hv].
   unfold instant_of, utc. cbn [a_fields a_offset]. rewrite Hs. change (Z.of_N sign_req_seconds) with 864000%Z. lia.
 Qed.
+
+(* observation (not a clause of the property): on 29 February of a year y with y+20 not a leap year the clock reading
+   cannot be moved 20 years ahead and self_sign raises ValueError before anything is issued *)
+Example self_sign_leap_day_raises :
+  self_sign sign (NSStr [47; 97]) [] None 0%Z {| t_year := 2080; t_mon := 2; t_day := 29; t_hour := 0; t_min := 0; t_sec := 0 |}
+  = Err EValue.
+Proof. reflexivity. Qed.
 
 End Main.
 
